@@ -135,6 +135,7 @@ void eb_norm_sim(eb_t *r, const eb_t *t, int n) {
 			if (!eb_is_infty(t[i])) {
 				fb_copy(r[i]->z, a[i]);
 			}
+			r[i]->coord = t[i]->coord;
 		}
 #if EB_ADD == PROJC || !defined(STRIP)
 		for (int i = 0; i < n; i++) {
